@@ -750,6 +750,40 @@ fn search_info_dups(ob: &str) {
     emit(ob, !ok, 1, if ok { Value::Null } else { json!({"registered": ["org.example.t", "org.example.t"], "GetInfo.interfaces": ifs, "expected": ["org.varlink.service", "org.example.t"]}) });
 }
 
+// C16 (address-form slice): unknown schemes are rejected by client and server with InvalidAddress; `;` parameters are cut off
+fn search_address(obs: &[&str]) {
+    let mut found: std::collections::HashMap<&'static str, Value> = std::collections::HashMap::new();
+    let mut explored = 0;
+    for a in ["", "foo:bar", "unixx:/tmp/x", "UNIX:/tmp/x", "tcp", "unix", "http://x", "tcp;127.0.0.1:1", " unix:/tmp/x", "un:ix:", "ucp:1"] {
+        explored += 1;
+        let c = varlink::Connection::with_address(a).map(|_| ()).map_err(|e| format!("{:?}", e.kind()));
+        let l = varlink::Listener::new(a).map(|_| ()).map_err(|e| format!("{:?}", e.kind()));
+        if c != Err("InvalidAddress".to_string()) || l != Err("InvalidAddress".to_string()) {
+            found.entry("scheme").or_insert(json!({"address": a, "client": format!("{:?}", c), "server": format!("{:?}", l), "expected": "Err(InvalidAddress) on both sides"}));
+        }
+    }
+    {
+        explored += 1;
+        let dir = std::env::temp_dir().join(format!("vx-replay-addr-{}", std::process::id()));
+        let _ = std::fs::create_dir_all(&dir);
+        let path = dir.join("s");
+        let with_params = format!("unix:{};mode=0600;foo=bar", path.display());
+        let l = varlink::Listener::new(&with_params);
+        let bound_plain = path.exists();
+        let c = varlink::Connection::with_address(&with_params).map(|_| ()).map_err(|e| format!("{:?}", e.kind()));
+        if l.is_err() || !bound_plain || c.is_err() {
+            found.entry("params").or_insert(json!({"address": "unix:<dir>/s;mode=0600;foo=bar", "server_bound": l.is_ok(), "socket_at_plain_path": bound_plain, "client_connect": format!("{:?}", c)}));
+        }
+        drop(l);
+        let _ = std::fs::remove_dir_all(&dir);
+    }
+    for ob in obs {
+        let class = if *ob == "C16.params" { "params" } else if *ob == "C16.scheme" { "scheme" } else { "none" };
+        let f = found.get(class);
+        emit(ob, f.is_some(), explored, f.cloned().unwrap_or(Value::Null));
+    }
+}
+
 // C17: Request / Reply round trips over the full flag domain {unset, true, false}
 fn search_wire_roundtrip(obs: &[&str]) {
     let mut found = None;
@@ -831,6 +865,8 @@ fn main() {
     let lt: Vec<&str> = ["C15.idle", "C15.drain", "C15.drain-w", "C15.busy", "C15.stop", "C15.no-panic"].iter().cloned().filter(|o| m(o)).collect();
     if !lt.is_empty() { search_listen_time(&lt); }
     if m("C15.unlink") { search_unlink("C15.unlink"); }
+    let ad: Vec<&str> = ["C16.scheme", "C16.params", "C16.activation", "C16.no-panic"].iter().cloned().filter(|o| m(o)).collect();
+    if !ad.is_empty() { search_address(&ad); }
     if m("C03.info") { search_info_dups("C03.info"); }
     let wr: Vec<&str> = ["C17.wire-attrs"].iter().cloned().filter(|o| m(o)).collect();
     if !wr.is_empty() { search_wire_roundtrip(&wr); }
